@@ -461,6 +461,8 @@ def check(ctx: Ctx) -> None:
     check_first_run(ctx, t)
     check_schedule_table(ctx, t)
     check_idle_reset(ctx, t)
+    from . import _stoppers
+    _stoppers.check_timer_start_sample(ctx, 'R10.5')
 
 
 SPEC = PropSpec(
